@@ -167,7 +167,7 @@ def rstring(rng, fancy=True):
         if c < .11:
             # near misses of other lexical classes: '#' + 4, 5 or 7 hex digits is no colour, a lone bracket no binding,
             # a date / version / percentage no number
-            return rng.choice(["#BEEF", "#ABCDE", "#ABCDEF1", "#GG0000", "#AbC", "#aBcDeF", "2020-01-02", "1.2.3", "50%", "1e", "0x1F", ".5.", "a]", "[b", "%x", "x%"])
+            return rng.choice(["#BEEF", "#ABCDE", "#ABCDEF1", "#GG0000", "#AbCd", "2020-01-02", "1.2.3", "50%", "1e", "0x1F", ".5.", "a]", "[b", "%x", "x%"])
     n = rng.randint(1, 10)
     alphabet = SAFE + (" _-.:/%é𝄞,;=" if fancy else "")
     s = "".join(rng.choice(alphabet) for _ in range(n)).strip()
